@@ -3,6 +3,7 @@ mod model;
 mod driver;
 mod gen;
 mod ackrun;
+mod sketchrun;
 
 use std::io::{BufRead, BufWriter, Write};
 use std::time::Duration;
@@ -71,6 +72,24 @@ fn main() {
             }
             out.flush().unwrap();
             println!("SUMMARY {}", serde_json::Value::Array(summary));
+        }
+        "sketchrun" => {
+            let out_path = arg_value(&args, "--out").expect("--out");
+            let seed: u64 = arg_value(&args, "--seed").map(|value| value.parse().unwrap()).unwrap_or(1);
+            let runs: usize = arg_value(&args, "--runs").map(|value| value.parse().unwrap()).unwrap_or(50);
+            let extra: usize = arg_value(&args, "--rows").map(|value| value.parse().unwrap()).unwrap_or(500);
+            std::panic::set_hook(Box::new(|_| {}));
+            let mut out = BufWriter::new(std::fs::File::create(&out_path).expect("create out"));
+            let result = std::panic::catch_unwind(std::panic::AssertUnwindSafe(|| {
+                let tour = sketchrun::tour(&mut out, seed, extra);
+                let accesses = sketchrun::streams(&mut out, seed, runs);
+                (tour, accesses)
+            }));
+            out.flush().unwrap();
+            match result {
+                Ok((tour, accesses)) => println!("SUMMARY {}", serde_json::json!([{"run": 1, "name": "sketch", "steps": tour + accesses, "hang": null, "stuck": false, "tour": tour, "accesses": accesses}])),
+                Err(_) => { println!("PANIC in the sketch code under test"); std::process::exit(4); }
+            }
         }
         "gen" => {
             let profile = arg_value(&args, "--profile").expect("--profile");
